@@ -18,8 +18,12 @@ RULE = ("contract on Models.__init__ / update_interpolation / shift_x_base / "
         "chosen at random or by largest/smallest determinant ratio, new "
         "points near / far / duplicate / collinear / tiny displacement) and "
         "(b) on every real run of a hostile workload (tiny anisotropic boxes, "
-        "radius_final=0).  Second clause: the recorded values are bitwise the "
-        "barrier-clipped values the evaluation tap saw for that very point.  "
+        "radius_final=0, NaN / infinite / beyond-barrier values).  Second "
+        "clause: the recorded values are bitwise what Problem.__call__ "
+        "returned for that very point, every user call of the round was made "
+        "at build_x(point), and what Problem.__call__ returned is the "
+        "barrier-clipped image (NaN -> 2**100, clip to +-2**100) of what the "
+        "user functions returned in that round (monitor's own clip).  "
         "Non-trivial = history with >=1 constraint model and >=10 updates, or "
         "with a degenerate event followed by recovery; distinct = (n, npt, "
         "#models, operation pattern)")
@@ -31,7 +35,7 @@ ASSUMPTIONS = [
 ]
 REQUIRED = {"node_checks_judged": 20000, "contract_events": 3000,
             "recorded_value_checks": 2000, "constraint_model_updates": 1000,
-            "ill_conditioned_updates": 5}
+            "ill_conditioned_updates": 5, "barrier_active": 20}
 MIN_NONTRIVIAL = {"quick": 50, "thorough": 400}
 PLAN = [("driven", 500, 8000), ("real", 300, 4000), ("hostile", 200, 3000),
         ("repotests", 1, 1)]
@@ -102,10 +106,21 @@ def run_real(case):
     else:
         spec = gen.general(rng, maxfev=(40, 160), forms=("nlc", "dict_ineq"),
                            with_faults=bool(rng.random() < 0.15))
+    if case["fam"] == "hostile" and rng.random() < 0.35 and \
+            spec["obj"]["kind"] != "none":
+        # finite values beyond the extreme barrier, NaN and infinities at
+        # some of the points that enter the interpolation set
+        spec["faults"] = gen.fault_plan(rng, spec, density=2)
     mon = InterpMonitor()
     rec = mrun.run(spec, setup=mon.attach)
     counts = e2e.base_counts(rec)
     counts.update(mon.counts())
+    from vlib import oracles as _o
+    bv, binfo = _o.o_barrier(rec)
+    counts["barrier_checks"] = binfo["barrier_checks"]
+    counts["barrier_active"] = binfo["barrier_active"]
+    if bv and not mon.viols:
+        mon.viols.extend(bv)
     # second clause, user side: the values recorded for an interpolation
     # point were returned by the user functions AT THAT VERY POINT, i.e.
     # every user call of an evaluation round was made at build_x(point)
